@@ -220,9 +220,13 @@ def make_model(kind, st, traced=False):
         # the model's rating-class attribute points at a subclass of the rating class (users may swap it to attach
         # behaviour); plain rating objects of the model must still be accepted
         m = cls(**kw)
-        nm = [a for a in vars(m) if a.endswith("Rating") and isinstance(getattr(m, a), type)]
-        for a in nm:
-            setattr(m, a, type("Sub" + a, (getattr(m, a),), {}))
+        for a in [a for a in dir(m) if a.endswith("Rating") and not a.startswith("_")]:
+            try:
+                base = getattr(m, a)
+                if isinstance(base, type) and issubclass(base, RATING[kind]):
+                    setattr(m, a, type("Sub" + a, (base,), {}))
+            except Exception:  # noqa: BLE001  (the attribute cannot be replaced on this implementation: nothing to vary)
+                pass
         return m
     if st.get("ctor") == "setattr":
         # the same parameters reached by assigning the public attributes of a default-constructed model
@@ -233,8 +237,31 @@ def make_model(kind, st, traced=False):
     return cls(**kw)
 
 
+def snapshot(m):
+    """every attribute of a model object, however it is stored (instance dict, slots, properties): the public
+    parameters by name plus whatever the instance dict holds"""
+    out = {}
+    for k in DATA_ATTRS:
+        try:
+            out[k] = object.__getattribute__(m, k)
+        except AttributeError:
+            pass
+    try:
+        out.update({k: v for k, v in object.__getattribute__(m, "__dict__").items() if k != "_log"})
+    except AttributeError:
+        pass
+    for cls in type(m).__mro__:
+        for k in getattr(cls, "__slots__", ()) or ():
+            if isinstance(k, str) and k not in ("__dict__", "__weakref__", "_log"):
+                try:
+                    out[k] = object.__getattribute__(m, k)
+                except AttributeError:
+                    pass
+    return out
+
+
 def state_obs(m):
-    d = m.__dict__
+    d = snapshot(m)
     return [hx(d["mu"]), hx(d["sigma"]), hx(d["beta"]), hx(d["kappa"]), hx(d["tau"]), bool(d["limit_sigma"])]
 
 
@@ -288,7 +315,7 @@ def _with_model(case, fn, pr):
     share = {} if case.get("share") else None
     args = [to_python(a, traced=True, log=log, pos=None, share=share) for a in case["args"]]
     teams_obj = args[0]
-    before_dict = {k: v for k, v in m.__dict__.items() if k != "_log"}
+    before_dict = snapshot(m)
     object.__setattr__(m, "_log", log)
     obs = {}
     try:
@@ -300,7 +327,7 @@ def _with_model(case, fn, pr):
         obs["exc"] = exc_class(e)
         obs["_msg"] = str(e)[:200]
     object.__setattr__(m, "_log", None)
-    after_dict = {k: v for k, v in m.__dict__.items() if k != "_log"}
+    after_dict = snapshot(m)
     obs["rd"] = sorted({x[1] for x in log if x[0] == "r"})
     obs["wr"] = [[x[1], (hx(x[2]) if isinstance(x[2], float) else x[2])] for x in log
                  if x[0] == "w"]
